@@ -702,11 +702,22 @@ class SourceHandler:
         if packet_holder.pdu_directive_type != DirectiveType.NAK_PDU:
             return False
         nak_pdu = packet_holder.to_nak_pdu()
+        # Validate all segment requests first so an invalid NAK PDU does not emit any data.
+        for segment_req in nak_pdu.segment_requests:
+            self._check_segment_req(segment_req)
         for segment_req in nak_pdu.segment_requests:
             self._handle_segment_req(segment_req)
         self._params.ack_params.step_before_retransmission = self.states.step
         self.states.step = TransactionStep.RETRANSMITTING
         return True
+
+    def _check_segment_req(self, segment_req: tuple[int, int]) -> None:
+        if segment_req[1] < segment_req[0]:
+            raise InvalidNakPdu("end offset larger than start offset")
+        if segment_req[0] > self._params.fp.progress:
+            raise InvalidNakPdu("start offset larger than current file progress")
+        if segment_req[1] > self._params.fp.progress:
+            raise InvalidNakPdu("end offset larger than current file progress")
 
     def _handle_segment_req(self, segment_req: tuple[int, int]) -> None:
         # Special case: Metadata PDU is re-requested
@@ -714,11 +725,6 @@ class SourceHandler:
             # Re-transmit the metadata PDU
             self._prepare_metadata_pdu()
         else:
-            if segment_req[1] < segment_req[0]:
-                raise InvalidNakPdu("end offset larger than start offset")
-            if segment_req[0] > self._params.fp.progress:
-                raise InvalidNakPdu("start offset larger than current file progress")
-
             missing_chunk_len = segment_req[1] - segment_req[0]
             current_offset = segment_req[0]
             while missing_chunk_len > 0:
